@@ -2,6 +2,7 @@ import Hgxv.Model.Wire
 import Hgxv.Model.C03
 import Hgxv.Model.C03Spec
 import Hgxv.Model.C03Full
+import Hgxv.Model.C03Kind
 /-! Line protocol for C03 (see `harness/c03.py`, functions `op_lines` / `q_line`).  The driver only parses a line into a
 `C03.Op`, calls `C03.step`, and prints the outcome in the canonical (sorted) rendering of the harness.
 
@@ -178,7 +179,20 @@ def showFRes : FRes → String
 (`C03.specStep`) on the base calls of the same lines; a base query that does not expose edge ids must be answered
 identically by both (this is theorem `C03_refines` through `C03_full_projection`, re-checked here at run time on every
 generated line) - otherwise the line is answered `spec-mismatch ...`. -/
+def kindLine (st : FState) (i : String) (rest : List String) : String :=
+  match nat? i, parseQuery rest with
+  | some i, some q =>
+    match AL.get? st i with
+    | none => "rej"
+    | some o => (answer o.base q).kind.name
+  | _, _ => "bad-op"
+
+/-- Round e: `k i <query>` prints the KIND of the model's answer to `q i <query>` (`C03.Ans.kind`: recs / recsMeta /
+recsW / ints / counts / hs / int / inf / rej ...); the state is not touched. -/
 def stepLine (st : FState × SpecState) (toks : List String) : (FState × SpecState) × String :=
+  match toks with
+  | "k" :: i :: rest => (st, kindLine st.1 i rest)
+  | _ =>
   match parseFOp toks with
   | none => (st, "bad-op")
   | some (op, bop) =>
